@@ -128,6 +128,7 @@ class C20(ParserSessionProp):
             'torn': 'every' if tier == 'thorough' else 'last',
             'trailing_newline': rng.random() < 0.8,
             'paren_words': rng.random() < 0.3,
+            'blank_lines': rng.random() < 0.2,
         }
         return spec
 
@@ -218,6 +219,8 @@ class C20(ParserSessionProp):
         text = ''
         spans = []
         for header, line in records:
+            if f.get('blank_lines') and text:
+                text += '\n'                    # an empty line between records (both readers skip empty lines)
             start = len(text.encode('utf-8'))
             text += header + line + '\n'
             spans.append((start, start + len(header.encode('utf-8')), len(text.encode('utf-8')) - 1))
